@@ -734,7 +734,7 @@ func main() {
 		Plan *Plan    `json:"plan"`
 		Race *raceCfg `json:"race"`
 	}
-	race := &raceCfg{Rounds: c.N(150000, 3000000), BudgetMs: c.N(6000, 90000), Seed: c.Rng.U64()}
+	race := &raceCfg{Rounds: c.N(150000, 1500000), BudgetMs: c.N(6000, 30000), Seed: c.Rng.U64()}
 	if c.LoadReplay(&rp) && (rp.Plan != nil || rp.Race != nil) {
 		race = rp.Race
 		if rp.Plan != nil {
@@ -775,7 +775,7 @@ func main() {
 		}
 		// generated: 2..3 requests in flight, target position and stagger from the PRNG
 		kills := []string{"before-send", "after-send", "after-ack", "after-result"}
-		for i := 0; i < c.N(10, 380); i++ {
+		for i := 0; i < c.N(10, 140); i++ {
 			nreq := c.Rng.Range(2, 3)
 			cls := "none"
 			kill := kills[i%4]
